@@ -588,6 +588,11 @@ typedef struct {
     Symbol *symbols;
     int symbol_count;
     int symbol_capacity;
+    /* Evaluator call frames (static scoping, spec 8.1): while a function body
+     * runs, symbols in [globals_end, frame_base) are locals of its callers and
+     * do not resolve.  globals_end is -1 outside evaluation. */
+    int frame_base;
+    int globals_end;
     Function *functions;
     int function_count;
     int function_capacity;
